@@ -437,6 +437,7 @@ def pytest_sessionfinish(session, exitstatus):
                 )
 
             used_changes = []
+            approved_categories = set()
             for flag in Flags.all():
                 if not changes[flag]:
                     continue
@@ -492,6 +493,7 @@ def pytest_sessionfinish(session, exitstatus):
 
                 if any_changes and apply_changes(flag):
                     used_changes += changes[flag]
+                    approved_categories.add(flag)
 
             report_problems(console)
 
@@ -525,7 +527,11 @@ def pytest_sessionfinish(session, exitstatus):
 
             unused_externals = _find_external.unused_externals()
 
-            if unused_externals and state().update_flags.trim:
+            # update_flags.trim is always set in review mode,
+            # the externals are only removed if trim was approved
+            trim_approved = "trim" in state().flags or "trim" in approved_categories
+
+            if unused_externals and trim_approved:
                 for name in unused_externals:
                     assert state().storage
                     state().storage.remove(name)
